@@ -5,7 +5,6 @@ HERE = os.path.dirname(os.path.dirname(os.path.abspath(__file__)))
 
 CLAIMED = {}   # pid -> dict(cat, text, note, tech, ref)
 NA = {
- "C06": "Cursor results over all call histories must equal a reference cursor over the decoded tree; the flag machine's behaviour depends on run-time token sequences and call history, which no sound static abstraction in reach relates to a tree model - a shape rule here would be a frozen-fragment proxy.",
 }
 PENDING = "check under construction in this round (abstract interpreter not yet committed for this property); it will be claimed once its check passes soundly on the tree"
 
